@@ -29,9 +29,16 @@ def old_files_recoverable(a, s, old_snap, rng, nlost, cfg):
     while len(lost) < nlost:
         c = rng.choice(cols)
         if c not in lost: lost.append(c)
+    gone = []
     for c in lost:
         if c.startswith('P'): fx.remove_parity(a, int(c[1:]))
         else: fx.wipe_disk(a, c)
+        # a device usually hosts a content copy as well (content /mnt/diskN/snapraid.content): half of the lost devices
+        # take one of the copies with them, any of them, as long as one copy survives
+        alive = [i for i in range(a.ncontent) if i not in gone]
+        if len(alive) > 1 and rng.chance(2, 3):
+            i = alive[0] if rng.chance(1, 2) else rng.choice(alive); gone.append(i)
+            if os.path.exists(a.contents[i]): os.unlink(a.contents[i])
     r = a.cmd('fix')
     now = a.snapshot()
     for k, v in old_snap.items():
@@ -39,7 +46,7 @@ def old_files_recoverable(a, s, old_snap, rng, nlost, cfg):
             continue
         w = now.get(k)
         if w is None or w[0] != 'f' or w[1] != v[1]:
-            return 'previously synced file %s/%r not recovered after losing %s (fix exit %d)' % (k[0], k[1], lost, r.rc)
+            return 'previously synced file %s/%r not recovered after losing %s%s (fix exit %d)' % (k[0], k[1], lost, ' with content copies %s' % gone if gone else '', r.rc)
     return None
 
 def sync_scenario(exe, shim, root, seed, stats, tier):
@@ -267,6 +274,53 @@ def directed_torn(exe, shim, root):
         return 'after kill: previously synced file d1/A not recovered after losing d1 (fix exit %d); directed history: one parity, d1/A synced, d2/N added, sync killed in the middle of the parity pwrite (call %d) of their first common stripe [torn-parity-write]' % (f.rc, k)
     return None
 
+def directed_copies(exe, shim, root, seed):
+    """several content copies, adds-only sync interrupted after its parity writes (every kill point from the first parity
+    write to the last state-changing call, three of them per run), then the device that hosts ONE content copy and a data
+    disk is lost: whichever copy survives must still let fix bring back every previously synced file of that disk"""
+    rng = e2e.Rng(seed)
+    a = e2e.Arr(root, exe, ndisks=3, nparity=2, ncontent=3)
+    s = sim.Sim(a, rng.fork(), weird_names=False)
+    for d in a.disks:
+        for i in range(2): a.write(d, 'old%d' % i, rng.bytes(1024 * ((5 if d == 'd1' else 1) + rng.below(3))), s.tick())
+    if s.sync().rc != 0:
+        a.destroy(); return None
+    old_snap = a.snapshot()
+    for d in a.disks[1:]:
+        a.write(d, 'new', rng.bytes(1024 * (3 + rng.below(4))), s.tick())
+    backup = root + '.bak'
+    shutil.copytree(a.root, backup, symlinks=True)
+    lg = os.path.join(vlib.scratch(), 'dcopies.log')
+    a.cmd('sync', env={'LD_PRELOAD': shim, 'VERIF_LOG': lg}, uselog=False)
+    first = last = None
+    for line in open(lg, errors='replace'):
+        t = line.split(' ')
+        if len(t) > 2 and t[0].isdigit():
+            last = int(t[0])
+            if first is None and t[1] == 'pwrite' and '/par/' in t[2]: first = int(t[0])
+    os.unlink(lg)
+    out = None
+    if first is not None:
+        for ki, k in enumerate(sorted(set([first + 1, (first + last) // 2, first + rng.below(last - first + 1)]))):
+            shutil.rmtree(a.root); shutil.copytree(backup, a.root, symlinks=True)
+            r = a.cmd('sync', env={'LD_PRELOAD': shim, 'VERIF_KILL': '%d:before' % k}, uselog=False)
+            if r.rc != -9: continue
+            lostc = ki if ki < 3 else rng.below(3)
+            fx.wipe_disk(a, 'd1')
+            if os.path.exists(a.contents[lostc]): os.unlink(a.contents[lostc])
+            f = a.cmd('fix')
+            now = a.snapshot()
+            for key, v in old_snap.items():
+                if v[0] == 'f' and key[0] == 'd1':
+                    w = now.get(key)
+                    if w is None or w[0] != 'f' or w[1] != v[1]:
+                        out = '[content-copies] after kill: previously synced file %s/%r not recovered after losing d1 together with content copy %d of 3 (fix exit %d); adds-only sync killed before state-changing call %d (first parity write is call %d of %d)' % (key[0], key[1], lostc, f.rc, k, first, last)
+                        break
+            if out: break
+    shutil.rmtree(backup, ignore_errors=True)
+    a.destroy()
+    return out
+
 def directed_shrink(exe, shim, root):
     """the recorded finding C07-shrink, replayed on every run: returns violation text or None"""
     a = e2e.Arr(root, exe, ndisks=2, nparity=1, ncontent=1)
@@ -324,6 +378,11 @@ def main(tier, seed):
     chk.extra['directed_C07_torn'] = dv or 'not reproduced'
     if dv:
         chk.violation('C07 ' + dv, dv, True, 'known_torn')
+    for rep in range(3 if tier == 'quick' else 20):
+        dv = directed_copies(exe, shim, os.path.join(vlib.scratch(), 'dcopies%d' % rep), seed * 100000 + 58000 + rep)
+        if dv:
+            chk.violation('C07 ' + dv, dv, True, 'copies'); break
+    chk.extra['directed_C07_copies'] = dv or 'ok'
     ns, nf = (24, 10) if tier == 'quick' else (160, 60)
     stats = {'runs': 0, 'not_fired': 0, 'modes': {}, 'recover_meanwhile': 0}
     jobs = [('sync', i) for i in range(ns)] + [('fix', i) for i in range(nf)]
